@@ -1,12 +1,15 @@
 package main
 
 import (
+	"bytes"
 	"encoding/json"
 	"fmt"
 	"github.com/aml-org/amf-custom-validator/pkg/events"
 	"github.com/aml-org/amf-custom-validator/pkg/milestones"
+	"io"
 	"math/rand"
 	"os"
+	"os/exec"
 	"strings"
 	"sync"
 	"time"
@@ -277,9 +280,65 @@ func runRaceStress(seed int64, goroutines, callsEach int) {
 			mismatches = append(mismatches, p.what+" differs from the serial result")
 		}
 	}
+	// the serial results themselves against the same call ALONE in a fresh process (several at a time: they are independent)
+	soloBad := make([]string, len(jobs))
+	var swg sync.WaitGroup
+	sem := make(chan struct{}, 8)
+	for i := range jobs {
+		swg.Add(1)
+		go func(i int) {
+			defer swg.Done()
+			sem <- struct{}{}
+			defer func() { <-sem }()
+			if solo, ok := soloJob(jobs[i].profile, jobs[i].data, rcFor(i)); ok && solo != serial[i] {
+				soloBad[i] = fmt.Sprintf("job %d (report configuration %v): the result in this process, after other calls, differs from the same call alone in a fresh process", i, rcFor(i))
+			}
+		}(i)
+	}
+	swg.Wait()
+	for _, b := range soloBad {
+		if b != "" {
+			mismatches = append(mismatches, b)
+		}
+	}
 	b, _ := json.Marshal(map[string]any{"outcome": "ok", "calls": calls, "goroutines": goroutines, "mismatches": mismatches})
 	fmt.Println(string(b))
 	_ = os.Stdout
+}
+
+// soloJob: what one call returns when it is the only call its process ever makes (the reference C10 speaks of: "what it would
+// return if it ran alone"); the job is handed to a fresh process of this binary
+type soloReq struct {
+	Profile string `json:"profile"`
+	Data    string `json:"data"`
+	Report  string `json:"report"`
+	Lexical string `json:"lexical"`
+	Date    bool   `json:"date"`
+}
+
+func soloJob(profile, data string, rc config.ReportConfiguration) (string, bool) {
+	exe, err := os.Executable()
+	if err != nil {
+		return "", false
+	}
+	b, _ := json.Marshal(soloReq{profile, data, rc.ReportSchemaIri, rc.LexicalSchemaIri, rc.IncludeReportCreationTime})
+	cmd := exec.Command(exe, "solojob")
+	cmd.Stdin = bytes.NewReader(b)
+	cmd.Env = append(os.Environ(), "GORACE=halt_on_error=0")
+	out, err := cmd.Output()
+	if err != nil {
+		return "", false
+	}
+	return string(out), true
+}
+
+func runSoloJob(in io.Reader) {
+	var q soloReq
+	if err := json.NewDecoder(in).Decode(&q); err != nil {
+		os.Exit(2)
+	}
+	o := validate(q.Profile, q.Data, config.ReportConfiguration{IncludeReportCreationTime: q.Date, ReportSchemaIri: q.Report, LexicalSchemaIri: q.Lexical})
+	fmt.Print(o.Kind + "\n" + o.Report)
 }
 
 // milestonesOf validates with an event channel whose events the library's own generator turns into milestones; returns a
